@@ -266,8 +266,9 @@ func runUnit(w **workerProc, dir string, u unit, caseTimeout time.Duration) (*un
 				if err := json.Unmarshal(got.line, &res); err != nil {
 					vk.Fatalf("unit %d: bad worker result: %v", u.ID, err)
 				}
+				partial := res.Partial
 				merged = mergeResult(merged, &res)
-				if !res.Partial {
+				if !partial {
 					return merged, killers
 				}
 				u.StartEnc++
